@@ -2373,6 +2373,20 @@ class Evaluator:
         args, kwargs = self._args(e, fr)
         if args is None:
             return T.opaque('star-args with symbolic value')
+        if T.tag(recv) == 'obj' and name in ('_replace', '_asdict') and '**' not in kwargs:
+            # the record helpers of typing.NamedTuple: a NEW record with some fields replaced / the fields as a mapping
+            ci = self.p.classes.get(recv[1])
+            if ci is not None and ci.is_record and any(b.split('.')[-1] == 'NamedTuple' for c_ in ci.mro() for b in c_.base_names) \
+                    and ci.find_method(name) is None:
+                f = dict(T.obj_fields(recv))
+                names = [nm for nm, _ in ci.fields]
+                if name == '_asdict' and not args and not kwargs and all(nm in f for nm in names):
+                    return T.dct([(T.const(nm), f[nm]) for nm in names])
+                if name == '_replace' and not args:
+                    if any(k_ not in names for k_ in kwargs):
+                        return T.raise_('ValueError')
+                    f.update(kwargs)
+                    return T.obj(recv[1], f)
         if '**' in kwargs:
             target = self.getattr(recv, name, fr, e)
             return self._spread_kwargs(kwargs, lambda k2: self.apply(target, args, k2, fr, e))
